@@ -162,7 +162,7 @@ func TestVerifStorageAppend(t *testing.T) {
 			// transaction layer, by the state the transaction was opened on, or by the trie a snapshot was taken of, keeps its
 			// bytes; after a rollback the next append starts from them again
 			if s.Pre.Present {
-				for _, via := range []string{"rolled-back-over-trie", "rolled-back-over-layer", "snapshot"} {
+				for _, via := range []string{"rolled-back-over-trie", "rolled-back-over-layer", "snapshot", "rolled-back-over-deletion"} {
 					base := inmemory_trie.NewEmptyTrie()
 					var seen, again, other []byte
 					var callErr error
@@ -194,6 +194,24 @@ func TestVerifStorageAppend(t *testing.T) {
 							}
 							again = ts.Get(key)
 							ts.CommitTransaction()
+						case "rolled-back-over-deletion":
+							// the list exists in the state, the enclosing transaction cleared it (a tombstone in its layer), the append of a
+							// nested transaction starts a one-item list and is rolled back: the key is absent again, the next append starts
+							// the same one-item list
+							_ = base.Put(key, append([]byte{}, old...))
+							ts := storage.NewTrieState(base)
+							ts.StartTransaction()
+							_ = ts.Delete(key)
+							ts.StartTransaction()
+							callErr = storageAppend(ts, key, append([]byte{}, item...))
+							seen = append([]byte{}, ts.Get(key)...)
+							ts.RollbackTransaction()
+							other = ts.Get(key)
+							if err := storageAppend(ts, key, append([]byte{}, item...)); err != nil && callErr == nil {
+								callErr = err
+							}
+							again = ts.Get(key)
+							ts.CommitTransaction()
 						case "snapshot":
 							_ = base.Put(key, append([]byte{}, old...))
 							ts := storage.NewTrieState(base.Snapshot())
@@ -209,6 +227,22 @@ func TestVerifStorageAppend(t *testing.T) {
 					})
 					res.Cmp()
 					sig := "C09/append/" + class + "/"
+					if via == "rolled-back-over-deletion" {
+						one := append([]byte{4}, item...) // Compact(1) ++ item: the append to an absent key
+						switch {
+						case pm != "":
+							res.Fail(b.ID, si, "Append", via, vHex(one), pm, sig+"panic", prefix)
+						case callErr != nil:
+							res.Fail(b.ID, si, "Append", via, vHex(one), "error: "+callErr.Error(), sig+"error", prefix)
+						case !bytes.Equal(seen, one):
+							res.Fail(b.ID, si, "Append", via+" item="+vHex(item), vHex(one), vHex(seen), sig+"wrong-bytes", prefix)
+						case other != nil:
+							res.Fail(b.ID, si, "Append", via+": the key the enclosing transaction cleared, after the nested append was rolled back", "absent", vHex(other), sig+"other-view-changed", prefix)
+						case !bytes.Equal(again, one):
+							res.Fail(b.ID, si, "Append", via+": the same append again", vHex(one), vHex(again), sig+"other-view-changed", prefix)
+						}
+						continue
+					}
 					switch {
 					case pm != "":
 						res.Fail(b.ID, si, "Append", via, vHex(exp), pm, sig+"panic", prefix)
